@@ -6,3 +6,9 @@ void _ZN4occa16modeMemoryPool_tD0Ev(char* p) { __CPROVER_assert(0, "the pool is 
 void _ZN4occa16modeMemoryPool_tD2Ev(char* p) { __CPROVER_assert(0, "the pool is never destroyed inside a history"); }
 void _ZN4occa6serial10memoryPoolD0Ev(char* p) { __CPROVER_assert(0, "the pool is never destroyed inside a history"); }
 void _ZN5vpoolD0Ev(char* p) { __CPROVER_assert(0, "the pool is never destroyed inside a history"); }
+/* ~modeBuffer_t: the backing buffers of a pool never own memory objects (reservations are registered with the pool), so the
+ * "destroy all slices" loop does not run; the model asserts exactly that and performs the rest of the destructor
+ * (b_dtor_tail in wrap.cpp).  This cuts the mutual recursion ~modeBuffer_t <-> ~modeMemory_t, which CBMC would unroll with
+ * all virtual-destructor candidates at every level. */
+int b_ring_empty(char *b); void b_dtor_tail(char *b);
+void _ZN4occa12modeBuffer_tD2Ev(char* p) { __CPROVER_assert(b_ring_empty(p), "a backing buffer is destroyed only when no memory object is registered with it"); b_dtor_tail(p); }
